@@ -2,6 +2,7 @@ SPECIFICATION TSpec
 CONSTANTS
   MaxMods = 5
   MaxDecls = 3
+  ImportPositions = FALSE
   Dirs <- TraceDirs
   Strict = TRUE
 POSTCONDITION Accepted
